@@ -139,7 +139,7 @@ func (g *Gen) bexpr(sc *scope) *BExpr {
 	return x
 }
 
-var textWords = []string{"w1", "w2", "w3", "t&amp;u", "&lt;x", "n&#39;t", "w4", "é", "w5.", "w6,"}
+var textWords = []string{"w1", "w2", "w3", "t&amp;u", "&lt;x", "n&#39;t", "w4", "é", "w5.", "w6,", `say"hi"`, `back\slash`, "`tick`", "100%d", `\n`, "it's", "a=b", "日本", "&#x26;amp;", "semi;colon", "-->"}
 
 func (g *Gen) text() string {
 	n := 1 + g.R.Intn(3)
@@ -185,7 +185,7 @@ func (g *Gen) attrs(sc *scope, elem string, used map[string]bool, depth int) []*
 		case k < 4:
 			a.Kind = AConst
 			a.Name = name()
-			a.Val = pick(r, []string{"v", "a b", "x&y", "1<2", "", "it's", `say "hi"`, "é", "a=b", "p>q"})
+			a.Val = pick(r, []string{"v", "a b", "x&y", "1<2", "", "it's", `say "hi"`, "é", "a=b", "p>q", `back\slash`, "`tick`", "100%d", `\"`, "&amp;", "a  b"})
 			a.Quote = pick(r, []byte{'"', '"', '\'', 0})
 		case k < 5:
 			a.Kind = ABoolConst
@@ -390,7 +390,7 @@ func (g *Gen) node(sc *scope, depth int, ctx pctx) *Node {
 			return nd
 		case k < 29:
 			if r.Intn(2) == 0 {
-				return &Node{Kind: KHTMLComment, Text: pick(r, []string{" c1 ", "c2", " a b ", " <b>not a tag</b> ", ""})}
+				return &Node{Kind: KHTMLComment, Text: pick(r, []string{" c1 ", "c2", " a b ", " <b>not a tag</b> ", "", ` "q" \ ` + "`t` %s ", " { x } "})}
 			}
 			return &Node{Kind: KGoComment, Text: pick(r, []string{" note", " TODO: x", ""}), BlockComment: r.Intn(3) == 0}
 		default:
@@ -398,9 +398,9 @@ func (g *Gen) node(sc *scope, depth int, ctx pctx) *Node {
 				continue
 			}
 			if r.Intn(2) == 0 {
-				return &Node{Kind: KRaw, Name: "style", Text: pick(r, []string{".a{color:red}", "\n.b > .c { margin: 0 }\n", ""})}
+				return &Node{Kind: KRaw, Name: "style", Text: pick(r, []string{".a{color:red}", "\n.b > .c { margin: 0 }\n", "", `.q::after{content:"\201C q\\"}`, "a{b:`c`}/* %d */"})}
 			}
-			return &Node{Kind: KRaw, Name: "script", Text: pick(r, []string{"var x = 1;", "\nif (a < b && c > d) { f(\"s\") }\n", ""})}
+			return &Node{Kind: KRaw, Name: "script", Text: pick(r, []string{"var x = 1;", "\nif (a < b && c > d) { f(\"s\") }\n", "", "var t = `a${b}c` + 'q\\n' + \"d\";", "// c's\nlet r = 1;\n/* \"q */\n"})}
 		}
 	}
 	return &Node{Kind: KText, Text: g.text()}
